@@ -3,6 +3,7 @@ package c19
 import (
 	"bytes"
 	"context"
+	"encoding/binary"
 	"encoding/json"
 	"errors"
 	"fmt"
@@ -50,6 +51,7 @@ var (
 	pMultiBot         = simrt.NewProbe("world.with>=2.bots")
 	pConfigExtras     = simrt.NewProbe("configuration.ping/custom-payload.before.finish")
 	pNoPort           = simrt.NewProbe("address.without.port")
+	pHandlerReply     = simrt.NewProbe("handler.writes.a.packet.from.inside.the.handler")
 )
 
 var errHandler = errors.New("harness: injected handler failure")
@@ -67,7 +69,10 @@ type handlerCfg struct {
 	id       int32
 	priority int
 	park     bool
+	reply    bool // the handler answers with a packet of its own (like a keep-alive)
 }
+
+const replyID = int32(-7777)
 
 type invocation struct {
 	handler int
@@ -244,7 +249,7 @@ func drawBot(tp *tape.Tape, idx int, threshold int, names map[string]bool) *botS
 		b.handlers = append(b.handlers, handlerCfg{generic: true, priority: tp.Choose(3), park: tp.Bool(1, 3)})
 	}
 	for i := tp.Choose(7); i > 0; i-- {
-		b.handlers = append(b.handlers, handlerCfg{id: s2cIDs[tp.Choose(len(s2cIDs))], priority: tp.Choose(3), park: tp.Bool(1, 3)})
+		b.handlers = append(b.handlers, handlerCfg{id: s2cIDs[tp.Choose(len(s2cIDs))], priority: tp.Choose(3), park: tp.Bool(1, 3), reply: tp.Bool(1, 4)})
 	}
 	for i := range b.handlers {
 		for j := 0; j < i; j++ {
@@ -271,6 +276,20 @@ func drawBot(tp *tape.Tape, idx int, threshold int, names map[string]bool) *botS
 	}
 	b.configExt = tp.Choose(3)
 	return b
+}
+
+// expectedReplies lists, in order, the payload sums the replying handlers will
+// send back for the whole server->bot script.
+func (b *botSim) expectedReplies() []uint64 {
+	var out []uint64
+	for _, s := range b.s2c {
+		for _, h := range b.expectedOrder(s.id) {
+			if b.handlers[h].reply {
+				out = append(out, sum(s.data))
+			}
+		}
+	}
+	return out
 }
 
 // expected handler order for a packet id (indices into b.handlers): generic
@@ -335,7 +354,7 @@ func (g *gamePlay) AcceptPlayer(name string, id uuid.UUID, _ *user.PublicKey, _ 
 	wg.Add(1)
 	g.w.Go(fmt.Sprintf("srv-read%d", b.idx), func() {
 		defer wg.Done()
-		for range b.c2s {
+		for n := len(b.c2s) + len(b.expectedReplies()); n > 0; n-- {
 			var p pk.Packet
 			if err := conn.ReadPacket(&p); err != nil {
 				b.setSrvReadErr(err)
@@ -748,6 +767,14 @@ func scenarioWorld(c *harness.Ctx) {
 							pHandlerError.Hit()
 							return errHandler
 						}
+						if h.reply {
+							pHandlerReply.Hit()
+							var d [8]byte
+							binary.BigEndian.PutUint64(d[:], sum(p.Data))
+							if err := client.Conn.WritePacket(pk.Packet{ID: replyID, Data: d[:]}); err != nil {
+								b.setSendErr(fmt.Errorf("reply from inside a handler: %w", err))
+							}
+						}
 						return nil
 					}})
 				}
@@ -779,7 +806,7 @@ func scenarioWorld(c *harness.Ctx) {
 				} else {
 					pChannelQueue.Hit()
 					qr = queue.NewChannelQueue[pk.Packet](len(b.s2c)*2 + 64)
-					qw = queue.NewChannelQueue[pk.Packet](len(b.c2s) + 8)
+					qw = queue.NewChannelQueue[pk.Packet](len(b.c2s) + len(b.expectedReplies()) + 8)
 				}
 				d := &dialer{w: w, srv: srv, b: b, cfgAB: cfgs[i][0], cfgBA: cfgs[i][1], byConn: byConn}
 				jerr := client.JoinServerWithOptions(b.addr, bot.JoinOptions{MCDialer: d, QueueRead: qr, QueueWrite: qw})
@@ -885,9 +912,30 @@ func scenarioWorld(c *harness.Ctx) {
 				c.Fail("gate.play", "send", "error", "%s: %v", tag, b.sendErr)
 				return
 			}
+			// two ordered streams share the connection: the sender task's script and
+			// the replies sent from inside handlers; each must arrive intact, in order
+			var scripted, replies []spkt
+			for _, g := range b.srvGot {
+				if g.id == replyID && len(g.data) == 8 {
+					replies = append(replies, g)
+				} else {
+					scripted = append(scripted, g)
+				}
+			}
 			for i, s := range b.c2s {
-				if i >= len(b.srvGot) || b.srvGot[i].id != s.id || !bytes.Equal(b.srvGot[i].data, s.data) {
-					c.Fail("gate.play", "c2s", "mismatch", "%s: packet %d sent by the bot (id=%d, %d bytes) did not arrive intact and in order at the server (%d arrived)", tag, i, s.id, len(s.data), len(b.srvGot))
+				if i >= len(scripted) || scripted[i].id != s.id || !bytes.Equal(scripted[i].data, s.data) {
+					c.Fail("gate.play", "c2s", "mismatch", "%s: packet %d sent by the bot (id=%d, %d bytes) did not arrive intact and in order at the server (%d arrived)", tag, i, s.id, len(s.data), len(scripted))
+					return
+				}
+			}
+			wantReplies := b.expectedReplies()
+			if len(replies) != len(wantReplies) {
+				c.Fail("gate.play", "c2s", "reply-count", "%s: %d packets written from inside handlers arrived at the server, %d were written", tag, len(replies), len(wantReplies))
+				return
+			}
+			for i, r := range replies {
+				if binary.BigEndian.Uint64(r.data) != wantReplies[i] {
+					c.Fail("gate.play", "c2s", "reply-order", "%s: reply %d written from inside a handler arrived out of order or altered", tag, i)
 					return
 				}
 			}
